@@ -53,6 +53,19 @@ Proof. vm_compute. repeat split; try reflexivity. discriminate. Qed.
 (* Outside that fragment the statement is false of the faithful model in the class D16 below (and D17, D18);
    every sampled (body, plan) is decided by CheckLow.verdict22 on the real output. *)
 
+(* Special probes on instructions that the same plan removes with a block-alternate (or on the replaced opener) are
+   inside the domain since the repair of D31: they must disappear with the instruction -- none of their markers
+   occurs -- and nothing may be logged as unresolved.  On the mirror's own output: *)
+Example C22_probes_in_a_removed_region_disappear_silently :
+  let body := [FBlock BtEmpty; FBlock BtEmpty; FConst 1; FDrop; FEnd; FEnd; FEnd] in
+  let plan := [(0%nat, MBlockAlt, [FConst 1001; FDrop]); (0%nat, MBlockEntry, [FConst 1002; FDrop]);
+               (1%nat, MBlockExit, [FConst 1003; FDrop]); (1%nat, MBlockAlt, [FConst 1004; FDrop])] in
+  let c0 := mkCase 0 0 [] [] [] 0 body plan 0 false None true 0 in
+  let c := mkCase 0 0 [] [] [] 0 body plan 0 false (model c0) true 0 in
+  agree c = true /\ domain22 c = true /\ holds22 c = true
+  /\ model c0 = Some ([FConst 1001; FDrop; FEnd], []).
+Proof. vm_compute. repeat split; reflexivity. Qed.
+
 (* D19 and D20 were genuine defects of the pinned tree (FunctionModifier::inject_at did not record special modes;
    after an import deletion the resolution loop started one function too late).  Both are repaired ("fix:"
    commits in /repo); the former witnesses now satisfy the property: *)
